@@ -24,7 +24,7 @@ Produce {n} DIFFERENT changes to the project's non-test Go source (each one smal
  1. the project still compiles (`go build ./...`) and the ENTIRE existing test suite still passes unedited (`go test -vet=off -count=1 ./...`);
  2. the property above is genuinely broken by the change;
  3. the breakage needs something specific to manifest — a particular unusual input (e.g. non-ASCII / non-BMP characters, CRLF, empty or boundary values), a multi-step sequence of operations, a second call after a first one, or two cooperating sites that each look fine alone — NOT something that ordinary use or a casual smoke test would expose at once;
- 4. you provide a demonstration: a Go test file (in-package `_test.go`, or a small program) that FAILS with the change applied and PASSES on the unchanged tree. Verify both directions yourself (git stash / git checkout to flip).
+ 4. you provide a demonstration: a Go test file (in-package `_test.go`, or a small program) that FAILS with the change applied and PASSES on the unchanged tree. Verify both directions yourself (flip with `git diff > p.diff; git apply -R p.diff; ...; git apply p.diff` — never `git stash`: the stash is shared with sibling worktrees other people are using).
 Prefer changes in different functions/mechanisms from each other. Do not edit or delete existing tests. Do not add build tags. Do not touch files named zz_contracts_verif.go if any exist.
 
 DELIVERABLE — for each change k = 1..{n} create the directory {wt}/_seeded/{pid}-k/ containing:
